@@ -95,6 +95,15 @@ def prepare(scratch, race=False, log=None):
     # overlay
     ov = os.path.join(VERIF, "overlay")
     subprocess.run(["rsync", "-a", ov + "/", repo + "/"], check=True)
+    # The table of live TCP relay listeners is one per process (fix 4318e8e) and a worker process
+    # executes thousands of runs: a run that ends with a listener still open (a violating run, a
+    # run cut at the step cap) must not change what the runs after it see. Reset before each run;
+    # a no-op for trees that do not have the table (revert patches, seeded changes).
+    rl = os.path.join(repo, "relay_listener_ports.go")
+    has = os.path.exists(rl) and "var liveRelayListeners " in open(rl).read()
+    body = "liveRelayListeners.ports = nil" if has else ""
+    open(os.path.join(repo, "zz_verif_reset.go"), "w").write(
+        "package turn\n\n// VerifResetRelayListeners: see orch/prep.py (scratch copy only).\nfunc VerifResetRelayListeners() { %s }\n" % body)
     sim = os.path.join(scratch, "sim")
     simsrc = os.environ.get("VERIF_SIMDIR", os.path.join(VERIF, "sim"))
     subprocess.run(["rsync", "-a", "--exclude", "go.mod", "--exclude", "go.sum", simsrc + "/", sim + "/"], check=True)
